@@ -16,9 +16,14 @@ def arrLine (kind : String) (rest : List String) : String :=
   let pv := (getKey rest "pv").bind String.toNat?
   let ck : CtrKind := if ((getKey rest "k").getD "vec") == "arr" then .array 64 else .vector
   let isArr : Bool := ((getKey rest "k").getD "vec") == "arr"
+  -- the line's second mapping of the same type (`ext2=` / `str2=` / `pv2=`), used by `cm2` / `ad2` / `am2`
+  let L2? : Option Layout := match getKey rest "ext2" with
+    | some e2 => mkLayoutN kind sp (natL e2) (natL ((getKey rest "str2").getD "-")) ((getKey rest "pv2").bind String.toNat?)
+    | none => none
   match mkLayoutN kind sp es ss pv with
   | none => "bad-op"
   | some L =>
+    let L2 := L2?.getD L
     let cmds := ((getKey rest "seq").getD "").splitOn "/"
     let stepc (s : AState) (cmd : String) : AState :=
       let a := cmd.splitOn ":"
@@ -29,6 +34,21 @@ def arrLine (kind : String) (rest : List String) : String :=
       let live (j : Nat) : Option ASlot := s.pool.slots j
       match a.headD "" with
       | "cm" => { s with pool := s.pool.step (.ofMapping (nn 1) ck L) }
+      | "cm2" => { s with pool := s.pool.step (.ofMapping (nn 1) ck L2) }
+      | "ad2" | "am2" =>
+        let vals := (parseList (a.getD 2 "-"))
+        let c : List Int := match ck with
+          | .vector => vals
+          | .array m => (vals ++ List.replicate m 0).take m
+        { s with pool := s.pool.step (.adopt (nn 1) ck L2 c) }
+      | "rc" =>
+        match s.pool.arr (nn 1), live (nn 1) with
+        | some x, some sl =>
+          -- all four view-producing members return `mdspan(data(), map_)`: `ASlot.toMdspan`
+          let v := MdView.get s.pool.heap sl.toMdspan (l 2)
+          let _ := x
+          emit s!"tm={v} tc={v} om={v} oc={v} same=1"
+        | _, _ => emit "none"
       | "ce" => if kind == "stride" then emit "no-ctor" else { s with pool := s.pool.step (.ofMapping (nn 1) ck L) }
       | "ad" | "am" =>
         let vals := (parseList (a.getD 2 "-"))
